@@ -2,6 +2,7 @@
 //! The library part is shared by the `ctv` binary (proptest / enumeration driver) and by the
 //! cargo-fuzz targets in /verif/fuzz (coverage-guided search over the same generators/oracles).
 pub mod caps;
+pub mod echo;
 pub mod mutate;
 pub mod props;
 pub mod refcbor;
